@@ -309,7 +309,7 @@ def result_source(view, place_term):
     tr = c.deserr_trait()
     if tr == "Deserr" and c.name == "deserialize_from_value":
         return ("child", t[1])
-    if c.name == "from_str":
+    if c.name == "from_str" or (c.name == "parse" and (c.path or "").startswith("core::str::")):
         return ("fromstr", t[1])
     if c.krate not in ("std", "core", "alloc", "deserr", None):
         return ("user", t[1])
@@ -421,6 +421,32 @@ def c02_rules(view, bs):
             after = view.reachable(bb)
             if any(r in next_bbs or r in child_bbs or r in missing_bbs or (r in site_bbs and site_bbs[r].handling == "switched") for r in after):
                 out.append(finding("C02.LATE", view, "the accumulated error is looked at (borrowed) before all examination is done", bb))
+
+    # ---- C02.ACC: what a Continue answer returns replaces the accumulator, so the accumulator must have been handed in
+    for s in bs.sites:
+        if s.handling != "switched" or s.cont is None:
+            continue
+        # does the Continue payload end up in an accumulator?
+        target_acc = None
+        for acc in accs:
+            for d in view.whole_defs(acc):
+                if d[0] != "stmt":
+                    continue
+                tm = view.origin_rv(d[3]["rv"], d[1])
+
+                def from_site(x, sb=s.bb):
+                    return x[0] == "field" and x[2] == "Continue" and isinstance(x[1], tuple) and x[1][0] == "call" and x[1][1] == sb
+                direct = tm
+                if direct[0] == "agg" and direct[1] == "adt" and direct[4] == "Some" and direct[2]:
+                    direct = direct[2][0]
+                if from_site(direct):
+                    target_acc = acc
+        if target_acc is None:
+            continue
+        obligations += 1
+        if s.acc != target_acc:
+            out.append(finding("C02.ACC", view, "the %s starts from %s although its answer replaces the accumulator: reports accumulated so far are forgotten" % (
+                site_desc(view, s), "None" if s.self_none else "another value"), s.bb))
 
     # ---- C02.STRUCT: unconditional stops (outside Break paths) hide nothing
     exam = set(next_bbs) | set(b for b, c in child_bbs.items() if not c["delegating"]) | \
